@@ -107,6 +107,16 @@ CHECKS = {
         note="Quick tier: +-2 ms around every whole minute of the 2-day millisecond domain (thorough: every whole second) plus random values; signed counts within +-2^30.",
         technique="TLA+ codec specification model-checked by TLC + TLC trace validation of real writer/reader byte streams",
     ),
+    "C15": dict(
+        category="model_checking",
+        text=("PyBridge.tla relates standard-library field tuples to the day / nanosecond time lines (Gregorian day numbers from "
+              "Calendars.tla, truncation toward the start of time for points and toward zero for spans, model-checked on a grid); "
+              "dates, times, naive/aware datetimes, timedeltas and offsets are converted both ways through the real API and TLC "
+              "validates exactness, round trips and raising outside years 1..9999. Thorough enumerates every datetime.date."),
+        design_ref="DESIGN.md section 5 C15",
+        note="Aware datetimes whose UTC instant lies outside the Instant range (within 18 h of datetime.min/max) cannot convert and are not claimed.",
+        technique="TLA+ correspondence predicates checked by TLC + TLC trace validation of conversions",
+    ),
     "C18": dict(
         category="model_checking",
         text=("Intervals.tla defines DateInterval/Interval operations and TLC proves they are the set operations on all pairs over a "
